@@ -476,6 +476,11 @@ func (w *worker) runInstance(in *instance, cells []cell) {
 	if strings.EqualFold(inner[0], "TIMEOUT") && len(inner) > 2 {
 		inner = inner[2:]
 	}
+	if wire.LineWithinLine(inner) {
+		// the known geometry-library hang (KNOWN_FINDINGS C16 wedge:line-within-line)
+		ctx.Count("instances_skipped_line_within_line", 1)
+		return
+	}
 	if wire.JSETBalloon(inner) {
 		// the known containment finding of C16 (KNOWN_FINDINGS wedge:JSET): not a reply-format question
 		ctx.Count("instances_skipped_jset_balloon", 1)
